@@ -90,4 +90,20 @@ CHECKS = {
         "quick": [T("TestC02", 8, 150, steps=35)],
         "thorough": [T("TestC02", 16, 4000, steps=50, timeout=3000)],
     },
+    "C05": {
+        "level": "exploration",
+        "rule": ("rapid state machine on a real node (multi world: 3 appchains, 8 ordered services, audit on/off): 1-2 "
+                 "one-to-many groups of 1-6 children over 1-2 destination chains, optional unavailable destination, optional "
+                 "over-declared child count, T in {0,2,3,4,6,20}; actions begin(child) incl. duplicates, "
+                 "report(child, success|failure|rollback) incl. unknown/late/duplicate, transfer, seal. Oracle from the statement: "
+                 "global SUCCESS only with exactly the declared number of accepted success receipts; after the first failure "
+                 "event (begin failure, accepted failure receipt, expiry) global never SUCCESS and every begun child reports a "
+                 "failure/rollback status (GetStatus and raw group record); in the block of the failure every begun child is "
+                 "announced to the source chain and every child with an earlier accepted success receipt is announced to its "
+                 "destination chain (MultiTxCounter, TimeoutCounter, Counter); plain all-success path must reach SUCCESS. "
+                 "Non-trivial = declared size >=3 with >=1 child already succeeded when the failure/expiry occurs."),
+        "assumptions": ["failure events are derived from destination availability known to the harness, accepted receipts and the model expiry height"],
+        "quick": [T("TestC05", 8, 200, steps=35)],
+        "thorough": [T("TestC05", 16, 5000, steps=50, timeout=3000)],
+    },
 }
